@@ -50,6 +50,11 @@ pub fn id_from(s: &str) -> Option<SessionId> {
     serde_json::from_value(serde_json::Value::String(s.to_string())).ok()
 }
 
+thread_local! {
+    /// Set by the `SyncFault` operation (every shard thread drives its own current-thread runtime).
+    pub static FAIL_NEXT_UPDATE: std::cell::Cell<bool> = const { std::cell::Cell::new(false) };
+}
+
 pub struct Monitor {
     pub inner: Arc<dyn SessionStorageBackend>,
     pub log: MonLog,
@@ -78,6 +83,11 @@ impl SessionStorageBackend for Monitor {
     }
 
     async fn update(&self, id: &SessionId, record: SessionRecordRef<'_>) -> Result<(), UpdateError> {
+        if FAIL_NEXT_UPDATE.with(|f| f.replace(false)) {
+            // injected environment fault: a transient error of the storage backend
+            self.log.push(Call { op: "update", ids: vec![id_str(id)], ok: false, err: Some("injected transient fault".into()) });
+            return Err(UpdateError::Other(anyhow::anyhow!("injected transient fault")));
+        }
         let r = self.inner.update(id, record).await;
         self.log.push(Call { op: "update", ids: vec![id_str(id)], ok: r.is_ok(), err: errs(&r) });
         r
